@@ -710,6 +710,30 @@ fn subjects(ctx: &Ctx) -> Vec<Subject> {
         ];
         v.push(Subject { name: "synthetic-gsub-latn-only-no-dflt".into(), data, filter: None, ops });
     }
+    // 4d. a script with a LangSysRecord tagged 'dflt' that differs from its DefaultLangSys: language None, Some(DFLT),
+    //     Some('dflt') and an unknown language share or do not share cache entries - whatever they resolve to, the
+    //     answer may not depend on which was asked first
+    {
+        let cmap = [(b'a' as u32, 1u16), (b'b' as u32, 2), (0x25CC, 7)];
+        let mut sl = W::new();
+        sl.u16(1).tag(tag::LATN).u16(8);
+        sl.u16(10).u16(1).tag(otmodel::tag(b"dflt")).u16(20);
+        sl.u16(0).u16(0xFFFF).u16(2).u16(0).u16(1); // DefaultLangSys: liga, smcp
+        sl.u16(0).u16(0xFFFF).u16(1).u16(1); // 'dflt': smcp only
+        let gsub = gsub_one_lookup_per_feature(&sl.done(), &[tag::LIGA, tag::SMCP]);
+        let data = otmodel::tables::minimal_font(8, &cmap, &[(tag::GSUB, gsub)]);
+        let shape = |lang: Option<u32>, feats: FeatSel| Op::Shape { text: "ab", script: tag::LATN, lang, feats, tuple: None, kerning: true };
+        let ops = vec![
+            shape(None, FeatSel::Mask(dflt | smcp)),
+            shape(Some(tag::DFLT), FeatSel::Mask(dflt | smcp)),
+            shape(Some(otmodel::tag(b"dflt")), FeatSel::Mask(dflt | smcp)),
+            shape(Some(AAA), FeatSel::Mask(dflt | smcp)),
+            shape(None, FeatSel::Mask(dflt)),
+            shape(Some(tag::DFLT), FeatSel::Custom(vec![tag::LIGA, tag::SMCP])),
+            shape(None, FeatSel::Custom(vec![tag::LIGA, tag::SMCP])),
+        ];
+        v.push(Subject { name: "synthetic-langsys-record-tagged-dflt".into(), data, filter: None, ops });
+    }
     // 5. symbol-encoded font (lazy OS/2 usFirstCharIndex slot)
     {
         let data = crate::util::fixture("fonts/opentype/SymbolTest-Regular.ttf");
